@@ -931,4 +931,166 @@ theorem describeWheel_none_length (H : String → String) (p : WheelPlan) (he : 
   rw [List.length_map, buildWheel_members, List.length_append, List.length_map, wheelOps_length p he]
   rfl
 
+
+/-! ## the guarded writers (repo fix a8f41e9): success ⇔ distinct targets -/
+
+/-- no operation targets a name that is already there or that an earlier one used -/
+def fresh : List String → List Op → Bool
+  | _, [] => true
+  | names, o :: os => !names.contains o.target && fresh (names ++ [o.target]) os
+
+theorem step_paths (s : St) (o : Op) : (step s o).members.map (·.path) = s.members.map (·.path) ++ [o.target] := by
+  rw [step_eq]; simp [Op.member_path]
+
+theorem runC_eq (s : St) (ops : List Op) :
+    runC s ops = if fresh (s.members.map (·.path)) ops then .ok (run s ops) else .error .runtime := by
+  induction ops generalizing s with
+  | nil => simp [runC, fresh, run]
+  | cons o os ih =>
+    show (match stepC s o with | .ok s' => runC s' os | .error e => .error e) = _
+    unfold stepC
+    by_cases h : (s.members.map (·.path)).contains o.target = true
+    · rw [if_pos h]
+      have : fresh (s.members.map (·.path)) (o :: os) = false := by simp only [fresh, h, Bool.not_true, Bool.false_and]
+      rw [this]; rfl
+    · rw [if_neg h]
+      have h' : (s.members.map (·.path)).contains o.target = false := by simpa using h
+      have : fresh (s.members.map (·.path)) (o :: os) = fresh (s.members.map (·.path) ++ [o.target]) os := by
+        simp only [fresh, h', Bool.not_false, Bool.true_and]
+      rw [this]
+      show runC (step s o) os = _
+      rw [ih, step_paths]
+      rfl
+
+theorem fresh_iff (names : List String) (ops : List Op) :
+    fresh names ops = true ↔ (ops.map Op.target).Nodup ∧ ∀ t ∈ ops.map Op.target, t ∉ names := by
+  induction ops generalizing names with
+  | nil => simp [fresh]
+  | cons o os ih =>
+    rw [fresh, Bool.and_eq_true, ih, List.map_cons, List.nodup_cons]
+    have hc : (!names.contains o.target) = true ↔ o.target ∉ names := by simp
+    rw [hc]
+    constructor
+    · rintro ⟨h1, h2, h3⟩
+      refine ⟨⟨fun hm => ?_, h2⟩, fun t ht => ?_⟩
+      · exact h3 _ hm (List.mem_append_right _ (List.mem_singleton.2 rfl))
+      · rcases List.mem_cons.1 ht with rfl | ht'
+        · exact h1
+        · exact fun hn => h3 t ht' (List.mem_append_left _ hn)
+    · rintro ⟨⟨h1, h2⟩, h3⟩
+      refine ⟨h3 _ (List.mem_cons_self), h2, fun t ht hm => ?_⟩
+      rcases List.mem_append.1 hm with hm | hm
+      · exact h3 t (List.mem_cons_of_mem _ ht) hm
+      · rw [List.mem_singleton] at hm; subst hm; exact h1 ht
+
+theorem runC_ok_iff (ops : List Op) (s : St) :
+    runC {} ops = .ok s ↔ (ops.map Op.target).Nodup ∧ s = run {} ops := by
+  rw [runC_eq]
+  have : fresh (({} : St).members.map (·.path)) ops = true ↔ (ops.map Op.target).Nodup := by
+    rw [fresh_iff]; simp
+  by_cases h : fresh (({} : St).members.map (·.path)) ops = true
+  · simp only [h, if_true, Except.ok.injEq]
+    exact ⟨fun e => ⟨this.1 h, e.symm⟩, fun e => e.2.symm⟩
+  · simp only [h, Bool.false_eq_true, if_false]
+    constructor
+    · intro e; cases e
+    · intro e; exact absurd (this.2 e.1) h
+
+/-- **the guarded build succeeds exactly on `DistinctTargets`, and then it is the bookkeeping result** -/
+theorem buildWheelC_ok_iff (H : String → String) (p : WheelPlan) (s : St) :
+    buildWheelC H p = .ok s ↔ DistinctTargets p.distInfo (wheelOps p) ∧ s = buildWheel H p := by
+  unfold buildWheelC DistinctTargets
+  cases hr : runC {} (wheelOps p) with
+  | error e =>
+    simp only
+    constructor
+    · intro h; cases h
+    · rintro ⟨⟨hn, _⟩, _⟩
+      have := (runC_ok_iff (wheelOps p) (run {} (wheelOps p))).2 ⟨hn, rfl⟩
+      rw [hr] at this; cases this
+  | ok s0 =>
+    obtain ⟨hn, rfl⟩ := (runC_ok_iff _ _).1 hr
+    simp only [writeRecordC, stepC, Op.target]
+    have hp : (run {} (wheelOps p)).members.map (·.path) = (wheelOps p).map Op.target := by
+      rw [run_members, List.map_map]; exact List.map_congr_left (fun o _ => Op.member_path o)
+    rw [hp]
+    by_cases hm : ((wheelOps p).map Op.target).contains (recordPath p.distInfo) = true
+    · simp only [hm, if_true]
+      constructor
+      · intro h; cases h
+      · rintro ⟨⟨_, hne⟩, _⟩; exact absurd (by simpa using hm) hne
+    · have hm' : ((wheelOps p).map Op.target).contains (recordPath p.distInfo) = false := by simpa using hm
+      simp only [hm', Bool.false_eq_true, if_false, Except.ok.injEq]
+      constructor
+      · intro e; exact ⟨⟨hn, by simpa using hm'⟩, e.symm⟩
+      · rintro ⟨_, e⟩; exact e.symm
+
+/-! ## the guarded build depends on the operations only through the members they write -/
+
+theorem runC_congr (ops ops' : List Op) (h : ops.map Op.member = ops'.map Op.member) : runC {} ops = runC {} ops' := by
+  rw [runC_eq, runC_eq, run_congr _ _ h]
+  have ht : ops.map Op.target = ops'.map Op.target := by
+    have := congrArg (List.map (·.path)) h
+    simp only [List.map_map] at this
+    rw [← List.map_congr_left (fun o _ => Op.member_path o), ← List.map_congr_left (fun o _ => Op.member_path o)]
+    exact this
+  have hf : fresh (({} : St).members.map (·.path)) ops = fresh (({} : St).members.map (·.path)) ops' := by
+    rw [Bool.eq_iff_iff, fresh_iff, fresh_iff, ht]
+  rw [hf]
+
+theorem buildWheelC_congr (H : String → String) (p p' : WheelPlan) (hd : p.distInfo = p'.distInfo)
+    (h : (wheelOps p).map Op.member = (wheelOps p').map Op.member) : buildWheelC H p = buildWheelC H p' := by
+  unfold buildWheelC; rw [runC_congr _ _ h, hd]
+
+theorem describe_both_congr (H : String → String) (sde : Option String) (p p' : WheelPlan) (hd : p.distInfo = p'.distInfo)
+    (h : (wheelOps p).map Op.member = (wheelOps p').map Op.member) :
+    describeWheel H sde p = describeWheel H sde p' ∧ describeWheelC H sde p = describeWheelC H sde p' := by
+  refine ⟨describeWheel_congr H sde p p' (buildWheel_congr H p p' hd h), ?_⟩
+  unfold describeWheelC; rw [buildWheelC_congr H p p' hd h]
+
+/-- on success the wheel really written is the one the bookkeeping describes -/
+theorem describeWheelC_ok (H : String → String) (sde : Option String) (p : WheelPlan) (es : List ZipEntry)
+    (h : describeWheelC H sde p = .ok es) : describeWheel H sde p = .ok es ∧ DistinctTargets p.distInfo (wheelOps p) := by
+  unfold describeWheelC at h
+  unfold describeWheel
+  cases hz : zipfileDateTime sde with
+  | error e => simp [hz] at h
+  | ok dt =>
+    simp only [hz] at h ⊢
+    cases hb : buildWheelC H p with
+    | error e => simp [hb] at h
+    | ok s =>
+      simp only [hb, Except.ok.injEq] at h
+      obtain ⟨hd, rfl⟩ := (buildWheelC_ok_iff H p s).1 hb
+      exact ⟨by rw [h], hd⟩
+
+/-- member lists agree under a permutation of the walk and of the dist-info listing -/
+theorem perm_members_eq (p : WheelPlan) (rules : List IncludeRule) (tree tree' : List FileEntry) (di' : List DiFile)
+    (ht : tree'.Perm tree) (hd : di'.Perm p.diFiles)
+    (ndt : (tree.map (·.rel)).Nodup) (ndd : (p.diFiles.map (·.rel)).Nodup) :
+    wheelOps { p with toAdd := selectWheel rules tree', diFiles := di' } =
+    wheelOps { p with toAdd := selectWheel rules tree } := by
+  have h1 : copyModuleOps p.root (selectWheel rules tree') = copyModuleOps p.root (selectWheel rules tree) := by
+    unfold copyModuleOps
+    rw [if_pos gen_sorted.1, if_pos gen_sorted.1, sortBy_root, sortBy_root]
+    have ndt' : (tree'.map (·.rel)).Nodup := (ht.map _).nodup_iff.2 ndt
+    have hp : (selectWheel rules tree').Perm (selectWheel rules tree) := List.Perm.filterMap _ ht
+    rw [sortBy_perm _ _ _ hp (selectWheel_inj rules tree' ndt')]
+  have h2 : copyDistInfoOps p.diSource p.distInfo di' = copyDistInfoOps p.diSource p.distInfo p.diFiles := by
+    unfold copyDistInfoOps
+    rw [if_pos gen_sorted.2.1, if_pos gen_sorted.2.1, sortBy_root, sortBy_root]
+    have ndd' : (di'.map (·.rel)).Nodup := (hd.map _).nodup_iff.2 ndd
+    rw [sortBy_perm _ _ _ hd (inj_of_nodup_map _ _ ndd')]
+  simp only [wheelOps, h1, h2]
+
+theorem meta_members_eq (p : WheelPlan) (rules : List IncludeRule) (tree : List FileEntry) (root' : PathKey)
+    (g : FileEntry → FileEntry)
+    (hg : ∀ f, (g f).rel = f.rel ∧ (g f).digest = f.digest ∧ (g f).size = f.size ∧ ModeEquiv (g f).stMode f.stMode) :
+    (wheelOps { p with root := root', toAdd := selectWheel rules (tree.map g) }).map Op.member =
+    (wheelOps { p with toAdd := selectWheel rules tree }).map Op.member := by
+  simp only [wheelOps]
+  cases p.editable
+  · simp only [Bool.false_eq_true, if_false, List.map_append, copyModule_members, selectWheel_map rules tree g hg]
+  · rfl
+
 end Poetry.Build
